@@ -22,6 +22,7 @@ import (
 
 	"github.com/AdguardTeam/AdGuardHome/internal/client"
 	"github.com/AdguardTeam/AdGuardHome/internal/vfkit"
+	"github.com/miekg/dns"
 	"pgregory.net/rapid"
 )
 
@@ -72,10 +73,28 @@ func vfC04Do(h http.Handler, method, path, body string) (rec *httptest.ResponseR
 }
 
 func vfC04Body(name string, ids []string) (s string) {
-	b, _ := json.Marshal(map[string]any{
-		"name": name, "ids": ids, "use_global_settings": true, "use_global_blocked_services": true,
+	return vfC04BodySel(name, ids, "")
+}
+
+// vfC04Sels are the safe-search selections of a client with own settings: the
+// services for which safe search is enforced.
+var vfC04Sels = []string{"", "youtube", "duckduckgo", "youtube+duckduckgo"}
+
+// vfC04BodySel is a client with its own settings and the safe-search
+// selection sel; "" = a client that uses the global settings.
+func vfC04BodySel(name string, ids []string, sel string) (s string) {
+	m := map[string]any{
+		"name": name, "ids": ids, "use_global_settings": sel == "", "use_global_blocked_services": true,
 		"tags": []string{}, "upstreams": []string{}, "blocked_services": []string{},
-	})
+	}
+	if sel != "" {
+		m["filtering_enabled"] = true
+		m["safe_search"] = map[string]any{
+			"enabled": true, "bing": false, "ecosia": false, "google": false, "pixabay": false, "yandex": false,
+			"youtube": strings.Contains(sel, "youtube"), "duckduckgo": strings.Contains(sel, "duckduckgo"),
+		}
+	}
+	b, _ := json.Marshal(m)
 
 	return string(b)
 }
@@ -102,6 +121,7 @@ func TestVFC04HTTP(t *testing.T) {
 		}
 
 		model := map[string][]string{} // name -> ids
+		sels := map[string]string{}    // name -> safe-search selection
 		owner := func(id, except string) (name string) {
 			for n, ids := range model {
 				if n == except {
@@ -165,6 +185,28 @@ func TestVFC04HTTP(t *testing.T) {
 			if fmt.Sprint(got) != fmt.Sprint(want) {
 				t.Fatalf("after %s the registry is %v, want %v\nhistory: %s", what, got, want, strings.Join(trace, "; "))
 			}
+			// the safe search a client's requests get is the one of the last
+			// accepted add or update
+			for n := range model {
+				c, ok := st.FindByName(n)
+				if !ok {
+					t.Fatalf("after %s client %q is listed but not found by name\nhistory: %s", what, n, strings.Join(trace, "; "))
+				}
+				for svc, host := range map[string]string{"youtube": "www.youtube.com", "duckduckgo": "duckduckgo.com"} {
+					enforced := false
+					if c.SafeSearch != nil && c.UseOwnSettings {
+						res, cerr := c.SafeSearch.CheckHost(ctx, host, dns.TypeA)
+						if cerr != nil {
+							t.Fatalf("VERIF-INCONCLUSIVE safe search of %q: %v", n, cerr)
+						}
+						enforced = res.IsFiltered
+					}
+					if wantOn := strings.Contains(sels[n], svc); enforced != wantOn {
+						t.Fatalf("after %s the requests of client %q get safe search for %s: %t, but the last accepted call selected %q\nhistory: %s",
+							what, n, svc, enforced, sels[n], strings.Join(trace, "; "))
+					}
+				}
+			}
 		}
 		drawIDs := func(label string) (ids []string) {
 			return rapid.SliceOfNDistinct(rapid.SampledFrom(vfC04IDs), 1, 3, rapid.ID[string]).Draw(t, label)
@@ -183,8 +225,9 @@ func TestVFC04HTTP(t *testing.T) {
 						clash = true
 					}
 				}
-				rec := vfC04Do(h, http.MethodPost, "/control/clients/add", vfC04Body(name, ids))
-				trace = append(trace, fmt.Sprintf("add %s %v -> %d", name, ids, rec.Code))
+				sel := rapid.SampledFrom(vfC04Sels).Draw(t, "safe_search")
+				rec := vfC04Do(h, http.MethodPost, "/control/clients/add", vfC04BodySel(name, ids, sel))
+				trace = append(trace, fmt.Sprintf("add %s %v safe search %q -> %d", name, ids, sel, rec.Code))
 				vfC04.Eval()
 				if clash {
 					rejected = true
@@ -197,6 +240,7 @@ func TestVFC04HTTP(t *testing.T) {
 						t.Fatalf("valid add answered %d %s\nhistory: %s", rec.Code, rec.Body.String(), strings.Join(trace, "; "))
 					}
 					model[name] = ids
+					sels[name] = sel
 				}
 				check("add")
 			},
@@ -219,9 +263,13 @@ func TestVFC04HTTP(t *testing.T) {
 						clash = true
 					}
 				}
-				body, _ := json.Marshal(map[string]any{"name": old, "data": json.RawMessage(vfC04Body(name, ids))})
+				sel := rapid.SampledFrom(vfC04Sels).Draw(t, "safe_search")
+				body, _ := json.Marshal(map[string]any{"name": old, "data": json.RawMessage(vfC04BodySel(name, ids, sel))})
 				rec := vfC04Do(h, http.MethodPost, "/control/clients/update", string(body))
-				trace = append(trace, fmt.Sprintf("update %s->%s %v -> %d", old, name, ids, rec.Code))
+				trace = append(trace, fmt.Sprintf("update %s->%s %v safe search %q -> %d", old, name, ids, sel, rec.Code))
+				if clashNow := !exists; !clashNow && sel != sels[old] {
+					vfC04.Class("http:update_changes_safe_search")
+				}
 				vfC04.Eval()
 				if clash {
 					rejected = true
@@ -238,7 +286,9 @@ func TestVFC04HTTP(t *testing.T) {
 						vfC04.Class("http:ids_changed")
 					}
 					delete(model, old)
+					delete(sels, old)
 					model[name] = ids
+					sels[name] = sel
 				}
 				check("update")
 			},
@@ -256,7 +306,7 @@ func TestVFC04HTTP(t *testing.T) {
 				sort.Strings(names)
 				name := rapid.SampledFrom(names).Draw(t, "name")
 				listing()
-				body, _ := json.Marshal(map[string]any{"name": name, "data": json.RawMessage(vfC04Body(name, listedRaw[name]))})
+				body, _ := json.Marshal(map[string]any{"name": name, "data": json.RawMessage(vfC04BodySel(name, listedRaw[name], sels[name]))})
 				rec := vfC04Do(h, http.MethodPost, "/control/clients/update", string(body))
 				trace = append(trace, fmt.Sprintf("resave %s %v -> %d", name, listedRaw[name], rec.Code))
 				vfC04.Eval()
@@ -280,6 +330,7 @@ func TestVFC04HTTP(t *testing.T) {
 					t.Fatalf("delete of a missing client answered 200")
 				}
 				delete(model, name)
+				delete(sels, name)
 				check("delete")
 			},
 			"": func(t *rapid.T) {},
